@@ -63,6 +63,12 @@ class Fn(object):
                 continue
             stack.extend(ast.iter_child_nodes(n))
 
+    def ctx_ob(self, rule, inst, st, binding=None):
+        """CONTEXT obligation for one statement: it runs under the conditions recorded in contexts.json."""
+        c = run_context(self, st, binding, resolved=False)
+        if c is not None:
+            self.cx.context_ob(self, rule, inst, st, {'as written': c, 'resolved': run_context(self, st, binding, resolved=True)})
+
     def callee(self, call):
         """Dotted name of the callee; a local name bound once to a dotted callable
         (`strptime = datetime.datetime.strptime`) resolves to that callable."""
